@@ -54,6 +54,7 @@ class Gen:
     def __init__(self, rnd, flags=(1, 1)):
         self.rnd = rnd
         self.flags = flags
+        self.history: list = []
         self.val = 0
         # rough shadow of what exists, only used to bias name choice (never for verdicts)
         self.dbs: set = set()
@@ -157,6 +158,21 @@ class Gen:
                ("ti", 12), ("ts", 11), ("j", 4), ("x", 4), ("c", 2), ("w", 20)]
 
     def stmt(self):
+        """a new statement, or — every eighth time — an earlier statement of the history repeated verbatim on its connection (same text,
+        possibly under another context by now)"""
+        if self.rnd.random() < 0.13 and self.history:
+            old = self.rnd.choice(self.history)
+            return dict(old)
+        o = self._stmt()
+        if "sql" in o and "wp" not in o:
+            self.history.append(o)
+            # context-sensitive statements are the interesting ones to repeat
+            if o["op"].split(",")[2] in ("su", "sc", "sd") and "." not in o["op"].split(",")[-1]:
+                self.history.append(o)
+                self.history.append(o)
+        return o
+
+    def _stmt(self):
         r = self.rnd
         weights = [(k, w * 4 if k == "cd" and not self.flags[0] else w * 2 if k in ("sc", "c") and self.flags != (1, 1) else w) for k, w in self.WEIGHTS]
         kind = r.choices([k for k, _ in weights], [w for _, w in weights])[0]
@@ -362,6 +378,12 @@ def corpus() -> list[dict]:
             {"op": "s,1,wp,6,11.22.31", "wp": {"table_name": "T1", "schema": "S2", "database": "DB1"}, "sql": "write_pandas(conn, df, 'T1', database='DB1', schema='S2')"},
             {"op": "s,2,wp,7,22.31", "wp": {"table_name": "t1", "schema": "s2"}, "sql": "write_pandas(conn, df, 't1', schema='s2')"}, {"op": "s,2,wp,8,31", "wp": {"table_name": "t1"}, "sql": "write_pandas(conn, df, 't1')"},
             {"op": "s,1,ts,31", "sql": "select x from t1 order by x"}, {"op": "s,1,ts,22.31", "sql": "select x from s2.t1 order by x"}] + suffix()},
+        # the same statement text repeated on one connection (one long-lived cursor) under a different context must be resolved afresh
+        H(("c,11,21,1,1", ("db1", "s1")), ("s,1,cd,12,0", "create database db2"), ("s,1,sc,0,11.22", "create schema db1.s2"), ("s,1,sc,0,12.22", "create schema db2.s2"),
+          ("s,1,su,22", "use schema s2"), ("s,1,tc,t,0,0,31", "create table t1 (x int)"), ("s,1,ud,12", "use database db2"), ("s,1,su,22", "use schema s2"),
+          ("s,1,x", "select current_database(), current_schema()"), ("s,1,tc,t,0,0,31", "create table t1 (x int)"), ("s,1,ti,1,31", "insert into t1 (x) values (1)"),
+          ("s,1,su,11.21", "use schema db1.s1"), ("s,1,ti,1,31", "insert into t1 (x) values (1)"), ("s,1,sd,0,22", "drop schema s2"), ("s,1,su,12.22", "use schema db2.s2"),
+          ("s,1,sd,0,22", "drop schema s2"), ("s,1,tc,t,0,0,31", "create table t1 (x int)"), raw=True),
         # quoted lower / mixed-case database and schema names: reported exactly as written
         H(("c,11,21,1,1", ("db1", "s1")), ("s,1,cd,14,0", 'create database "dbq"'), ("s,1,ud,14", 'use database "dbq"'), ("s,1,x", "select current_database(), current_schema()"),
           ("s,1,sc,0,24", 'create schema "Sq"'), ("s,1,su,24", 'use schema "Sq"'), ("s,1,tc,t,0,0,31", "create table t1 (x int)"), ("s,1,ti,1,14.24.31", 'insert into "dbq"."Sq".t1 (x) values (1)'),
@@ -380,7 +402,7 @@ def _id(name):
     return str(IDS.get(str(name), f"?{name}"))
 
 
-def _real_res(conn, op: str, sql: str, opd: dict | None = None) -> str:
+def _real_res(conn, op: str, sql: str, opd: dict | None = None, cur=None) -> str:
     import snowflake.connector.errors as E
     kind = op.split(",")[2]
     opd = opd or {}
@@ -390,7 +412,7 @@ def _real_res(conn, op: str, sql: str, opd: dict | None = None) -> str:
             import snowflake.connector.pandas_tools as pt
             pt.write_pandas(conn, pd.DataFrame({"X": [int(op.split(",")[3])]}), **opd["wp"])
             return "ok"
-        cur = conn.cursor()
+        cur = cur or conn.cursor()   # the connection's long-lived cursor (statements of one client usually share a cursor)
         if "pre" in opd:
             cur.execute(opd["pre"])
         cur.execute(sql)
@@ -472,6 +494,7 @@ def real_history(hist: dict) -> list[str]:
     cd, cs = hist["flags"]
     with fakesnow.patch(create_database_on_connect=bool(cd), create_schema_on_connect=bool(cs)):
         conns, paths, cat = [], [], None
+        cursors: dict = {}   # one long-lived cursor per connection for the history's statements (observations use fresh cursors)
         for k, op in enumerate(ops):
             last = k == len(ops) - 1
             if "connect" in op:
@@ -491,7 +514,9 @@ def real_history(hist: dict) -> list[str]:
             else:
                 i = int(op["op"].split(",")[1])
                 kind = op["op"].split(",")[2]
-                res = _real_res(conns[i], op["op"], op["sql"], op)
+                if i not in cursors:
+                    cursors[i] = conns[i].cursor()
+                res = _real_res(conns[i], op["op"], op["sql"], op, cursors[i])
             if kind in CTX_KINDS or last:
                 paths = [_current(c) for c in conns]
             else:
